@@ -38,6 +38,17 @@ class Prop(PropBase):
         'anchors): the formatter memoises by id() within one call and would share results otherwise',
         '"the incoming mapping is unmodified" holds of the Gallina model by construction; for the real code it '
         'is checked on the generated cases by before/after snapshots (value and identity of every node)',
+        'Tie B (tools/py2coq_c10.py -> Gen/GenC10.v, proofs in Proofs/GenC10Proofs.v): the loop bodies of '
+        'merge_recurse / defaults_recurse, the SpecialTagDirective subclass list and the two steps are '
+        'regenerated from the current source and proved equal to the model. Assumed by the translator: '
+        'docstrings, `pass` and logger calls with constant arguments have no effect (dropped); the function '
+        'frame around the loop (nested def, `for k, v in <arg>.items()`, entry call inner(self, <arg>)) is '
+        'checked by shape, not translated; class names are resolved through context.py\'s imports '
+        '(collections.abc.Mapping/Set, pypyr.dsl.SpecialTagDirective, builtins) and mapped to val '
+        'constructors by Merge.class_test; are_all_this_type is checked to be all(isinstance(o, T) ...). '
+        'The MEANING of the statement fragment (evaluation order, where a key is hashed, in-place vs new '
+        'object, get_formatted_value = Format.v model) is Merge.run_item: hand-written, validated by the '
+        'correspondence run only',
         'the monitors learn the formatted keys from a second run with Context.get_formatted_value wrapped on '
         'the instance (no edit to /repo); the two runs must agree',
     ]
